@@ -66,6 +66,18 @@ def value_fn(universe, adesc):
         return f
     if mode == "zeros":
         return lambda lab: 0.0
+    if mode == "int":
+        # integer-valued entries stored with an integer dtype (e.g. counts, np.arange data)
+        salt = _SALT.get(tag, 7)
+
+        def f(lab):
+            code = 0
+            for l in letters:
+                k = uorder.index(l)
+                code += (items[l].index(lab[l]) + 1) * 10**k
+            return int(code * (salt + 1) + salt) - 15
+
+        return f
     if mode == "sym":
         import sympy
 
@@ -100,7 +112,7 @@ def ndarray_from_fn(letters, items, fn, dtype=None):
 
 def array_values(universe, adesc) -> np.ndarray:
     mode = adesc.get("mode", "coded")
-    dtype = float if mode in ("coded", "float", "zeros") else object
+    dtype = float if mode in ("coded", "float", "zeros") else (np.int64 if mode == "int" else object)
     return ndarray_from_fn(list(adesc["letters"]), uitems(universe), value_fn(universe, adesc), dtype)
 
 
